@@ -21,14 +21,14 @@ CLAIMS = {
         design='5 C01',
     ),
     'C02': dict(
-        text=('Unbounded deductive proof (Verus) of the restart path RaftLog::open on extracted code: every chunk id returned by the directory listing is gap-checked (ensure_consecutive_chunks: Err iff prev_end != id) '
+        text=('Unbounded deductive proof (Verus) of the restart path RaftLog::open on extracted code: load_chunk_ids returns exactly the ids of the well-named files of the directory (loop invariant; none skipped, none invented), in offset order; every one of them is loaded (postcondition of open: closed chunk or the reused open chunk); every chunk id is gap-checked (ensure_consecutive_chunks: Err iff prev_end != id) '
               'BEFORE it is opened; every record of every chunk is applied through the same RaftLogStateMachine::apply contract the live path uses, with chunk id and segment (offsets[i], offsets[i+1]-offsets[i]); '
               'the healthy newest chunk is reused for appends iff it was not truncated, otherwise a fresh chunk is created exactly at the previous end with State(current state) as head; '
               'the returned store satisfies the invariants every write operation needs and preserves (Inv_Cache, I7, wal_safe, Inv_WAL: loaded chunks keyed by start, non-empty, abutting). '
               'Live-side premises, checked under this property as well: RaftLog::append_and_apply journals a record only if the reference accepts it (rejected => nothing changed, nothing buffered) and buffers exactly enc(rec) for an accepted one; '
               'the flush worker batches every Write it receives and writes the batch to the newest file in request order. '
               'Lemma over the contracts (unit U11, no code): for a journal older ++ [State(h)] ++ newer whose chunk-head record carries the state at rotation (h == fold(init, older), proved under C11), replaying from that head from ANY starting state yields fold(init, whole journal) — so deleting older chunks and restarting reproduces the live state.  What is NOT decided: the journal-on-disk == journal-written link itself (C04+C11+file-system semantics) and the completeness half of the codec.'),
-        note=TRUST + ' ENVIRONMENT ASSUMPTION inside the replay loop (an explicit `assume`, listed in the evidence): each replayed record was accepted when it was journaled and magnitudes hold. load_chunk_ids, RaftLogWAL::new (thread spawn) are assumed contracts.',
+        note=TRUST + ' ENVIRONMENT ASSUMPTION inside the replay loop (an explicit `assume`, listed in the evidence): each replayed record was accepted when it was journaled and magnitudes hold. RaftLogWAL::new (thread spawn) is an assumed contract; RaftLog::load_chunk_ids is under contract over abstract file names (rule E23: read_dir/OsString/str parsing replaced by stand-ins; the directory listing at open time and the parser are uninterpreted, sort() is an assumed sorted permutation).',
         technique='Verus loop invariants over the chunk-loading loop + shared apply contract, on extracted code',
         design='5 C02',
     ),
